@@ -9,7 +9,7 @@
 //      same loop object while submissions continue, PRNG-seeded delays around pthread_mutex_lock/
 //      unlock and the eventfd read()/write(); the recorded history (`H …` lines) is validated by
 //      the driver: exactly once, per-submitter FIFO, loop thread, no lost wake-up (= no progress
-//      for 300 ms while tasks are pending and the loop is running).
+//      for 5 s of real time while tasks are pending and the loop is running; the structural check is the replay of the history).
 // No change to the repo is needed: everything is libc interposition (extern "C" + RTLD_NEXT).
 #include "vh.h"
 #include "vtime.h"
@@ -313,6 +313,10 @@ static void do_cancel(uint64_t id) {
     bool r = g_loop->cancel(id);
     emit("C " + std::to_string(id) + " " + (r ? "1" : "0"));
 }
+static void do_query() {   // isRunning() / isInLoopThread() asked by the calling thread
+    bool r = g_loop->isRunning(), i = g_loop->isInLoopThread();
+    emit(std::string("Q ") + (r ? "1" : "0") + " " + (i ? "1" : "0"));
+}
 static void do_cross(uint64_t t, uint64_t k) {   // called inside a callable, on the loop thread
     if (t >= (uint64_t)NT || (int)t == tl_idx || g_late >= 0 || g_destroying) { emit("W skip"); return; }
     { G g; g_blocked_evt = false; }
@@ -343,6 +347,7 @@ static void run_body(const std::vector<Act> &body) {
             case 'x': g_loop->exitLoop(); break;
             case 't': g_loop->exitLoop(std::chrono::milliseconds((int64_t)a.a)); break;   // exit timer (virtual clock)
             case 'r': do_submit_run(a.a); break;
+            case 'q': do_query(); break;
             case 'R':    // runLoop() from inside a callable of the running loop
                 // (from a callable of a destructor / cleanup() drain the loop is not running: a real nested loop, outside the model)
                 if (!g_loop->isRunning()) { emit("P nested-skipped"); break; }
@@ -369,7 +374,7 @@ static bool parse_act(const std::string &w, Act &a) {
     a.kind = w[0]; a.a = a.b = 0;
     if (a.kind == 't' && w.size() == 1) { a.a = 5; return true; }
     if (a.kind == 't') return vh::to_u64(w.substr(1), a.a) && a.a > 0 && a.a < (1ULL << 62);
-    if (a.kind == 'x' || a.kind == '!' || a.kind == 'R') return w.size() == 1;
+    if (a.kind == 'x' || a.kind == '!' || a.kind == 'R' || a.kind == 'q') return w.size() == 1;
     if (a.kind == 'i' || a.kind == 'n' || a.kind == 'c' || a.kind == 'r') return vh::to_u64(w.substr(1), a.a) && (a.kind == 'c' || a.a < 64);
     if (a.kind == 'w') {
         size_t p = w.find('.');
@@ -564,7 +569,10 @@ static void stress(const std::string &engine, unsigned nsub, unsigned ntasks, ui
                 bool pending = submitted.load() > d;
                 auto now = std::chrono::steady_clock::now();
                 if (d != last || !pending || !in_runloop.load()) { last = d; t0 = now; flagged = false; continue; }
-                if (!flagged && now - t0 > std::chrono::milliseconds(300)) { lost.fetch_add(1); flagged = true; }
+                // 5 s of REAL time: far beyond any scheduling delay under full machine load (300 ms fired with 8 submitters at load average 64:
+                // false alarm, round 8); a genuinely deaf loop stays deaf until the 20 s safety-net exit timer, and the replay of the history
+                // on the model rejects the missing eventfd write independently of any clock
+                if (!flagged && now - t0 > std::chrono::milliseconds(5000)) { lost.fetch_add(1); flagged = true; }
             }
         };
         uint32_t cq = 0;
@@ -674,6 +682,12 @@ int main() {
             wl.wake_delay = wl.loop_cost = wl.event_cb_cost = wl.run_cb_cost = wl.run_in_loop_delay = wl.run_next_delay = wl.timer_delay =
                 std::chrono::nanoseconds(t == 0 ? -1 : 0);
             emit("P wl");
+        } else if (op == "query" && w.size() == 2 && vh::to_u64(w[1], t) && t < NT && (int)t != g_loop_tid) {
+            post((int)t, [] { do_query(); }); wait_idle((int)t);
+        } else if (op == "newloop" && w.size() == 2) {
+            Loop *l = Loop::New(w[1]);
+            emit(l ? "P new ok" : "P new null");
+            delete l;
         } else if (op == "cleanup" && w.size() == 2 && vh::to_u64(w[1], t) && t < NT && idle) {
             op_cleanup((int)t);
         } else if (op == "sub" && w.size() == 3 && vh::to_u64(w[1], t) && t < NT && vh::to_u64(w[2], k) && k < 64 && (int)t != g_loop_tid) {
